@@ -1790,8 +1790,11 @@ writer_recurse_struct_or_dict_entry (DBusTypeWriter   *writer,
         return FALSE;
     }
 
+  /* This can fail: the space preallocated above is in the value string,
+   * the typecode goes into the type string, which may have to grow.
+   * Nothing has been written yet, so just report it. */
   if (!write_or_verify_typecode (sub, begin_char))
-    _dbus_assert_not_reached ("failed to insert struct typecode after prealloc");
+    return FALSE;
 
   if (writer->enabled)
     {
